@@ -13,6 +13,34 @@ CLAIMED = {
     note="Trusted: rustc determinism (same MIR => same behaviour), host target only. Deciding step is static: no library code is executed.",
     technique="configuration matrix under rustc deny-lints + MIR fingerprint equality of reachable instances (rustc_private driver)",
     engine="cfg-matrix"),
+ "C16": dict(
+    category="proof",
+    text="For every key / polynomial type (6 key aliases, R, T, 3 KG) the drop glue calls a local Drop::drop whose body passes &mut of EVERY field of the ADT to a zeroize routine instantiated at the field type, from which the resolved call graph reaches core::intrinsics::volatile_store for each element (N*size(E) == size(field)); layout_of shows no padding; no mem::forget / ManuallyDrop / transmute call exists in any MIR body of the crate (zero-count rule with a positive-control fixture).",
+    design_ref="DESIGN.md §4 C16",
+    note="Trusted: zeroize's volatile_write/fence are not elided; moved-from stack copies are outside the statement; rustc layout/drop elaboration.",
+    technique="type/layout/drop-glue facts from rustc (adt_def, layout_of, resolve_drop_in_place) + resolved call-graph reachability",
+    engine="driver-facts"),
+ "C10": dict(
+    category="proof",
+    text="Abstract interpretation of PrivateKey::try_from_bytes on ALL byte strings at once, per parameter set: the Ok payload of skDecode has s1/s2 in [-eta, eta] and t0 in range (no out-of-range field is accepted), every rejecting path of the validation carries an element interval disjoint from [-eta, eta] (no in-range field is rejected), both outcomes are reachable, and eta equals FIPS 204 Table 1.",
+    design_ref="DESIGN.md §4 C10",
+    note="Trusted: soundness of the interval domain / Iterator::all model in /verif/driver. The re-serialisation self-check half is an obligation of C13 (assumed there, with the lemma).",
+    technique="abstract interpretation over monomorphic MIR (intervals + path-partitioned validation), probes at skDecode/BitUnpack returns",
+    engine="driver-ai"),
+ "C13": dict(
+    category="other",
+    text="Abstract interpretation of all 30 public entry points per parameter set on arbitrary inputs (each key consumer composed with every key producer: deserialised arbitrary bytes, generated, derived). Every Assert terminator, panicking call and modelled std precondition reachable is an obligation; all are discharged except the 13 individually named obligations of rules/assume.json (counting / quantified-array / inverse-transform facts outside the domains, each with its lemma). Not a full proof because of those assumptions; sound for everything else.",
+    design_ref="DESIGN.md §4 C13, §5, A.6",
+    note="Assumed: rules/assume.json (13 obligations, listed in evidence). Trusted: abstract domains and std models; dependencies do not panic. Quick = ML-DSA-44, thorough = all three sets.",
+    technique="abstract interpretation over monomorphic MIR: intervals, linear congruences, affine quotient forms, sign partitioning; obligations = MIR Assert/panic sites",
+    engine="driver-ai"),
+ "C18": dict(
+    category="proof",
+    text="Every i32/i64 overflow and range obligation inside ntt / inv_ntt / mat_vec_mul / to_mont / add_vector_ntt, the reductions they call and the point-wise Montgomery products is discharged in every calling context reachable from the public API under the ranges the callers establish, including the adversarial response vector of verification (z ranges over the whole decoded interval). Decides the no-overflow half of the property; the transforms being the FIPS linear maps is not decided.",
+    design_ref="DESIGN.md §4 C18",
+    note="Trusted: abstract domains. Functional correctness (negacyclic product) not decided by this check.",
+    technique="abstract interpretation over monomorphic MIR (per-call-site interval/congruence/affine ranges through the unrolled transforms)",
+    engine="driver-ai"),
 }
 NA_REASON = "check not built yet in this round (static-analysis engine under construction); see DESIGN.md §8 build order"
 
@@ -42,6 +70,8 @@ man = {
  },
  "engines": [
    {"name": "cfg-matrix", "path": "checks/c17.py", "serves_properties": ["C17"], "kind_free_text": "feature-configuration matrix: rustc lints + MIR fingerprints"},
+   {"name": "driver-facts", "path": "driver/src/facts.rs", "serves_properties": ["C16", "C17"], "kind_free_text": "type/layout/drop-glue/call-graph facts"},
+   {"name": "driver-ai", "path": "driver/src/ai/", "serves_properties": ["C10", "C13", "C18"], "kind_free_text": "abstract interpreter over monomorphic MIR"},
    {"name": "driver", "path": "driver/", "serves_properties": sorted(CLAIMED), "kind_free_text": "rustc_private driver over type-checked monomorphic MIR (facts, call graph, abstract interpretation)"},
  ],
  "checks": checks,
